@@ -47,6 +47,19 @@ pub open spec fn pad_count(s: Seq<u8>) -> int {
     }
 }
 
+/// RFC 3550 padding as an encoder produces it: the count is a multiple of four and the filler octets before it are zero
+pub open spec fn pad_rfc(s: Seq<u8>) -> bool {
+    pad_count(s) % 4 == 0 && forall|i: int| s.len() - pad_count(s) <= i < s.len() - 1 ==> s[i] == 0
+}
+
+/// RFC-well-formed packet of a fixed-layout type: framed, RFC padding, and `body` content octets (what the count field
+/// announces) lie in front of the padding trailer.  This is what C09's "well-formed packets are always accepted" quantifies
+/// over; strings that are merely framed (e.g. padding that reaches into the announced content) are accepted by the pinned
+/// code as well, but no property demands it (those clauses are support only).
+pub open spec fn wellformed(s: Seq<u8>, pt: int, min: int, body: int) -> bool {
+    framed(s, pt, min) && pad_rfc(s) && min + body + pad_count(s) <= s.len()
+}
+
 /// image of the common header for a packet of `n` bytes (the 16-bit length field holds n/4-1; configurations with
 /// n > 262144 are not representable, see `representable_*`)
 pub open spec fn img_header(pad: int, count: int, pt: int, n: int) -> Seq<u8> {
@@ -76,6 +89,10 @@ pub open spec fn zeros(n: int) -> Seq<u8> {
 // header(subtype in the count bits, PT=204) | SSRC | name (4 octets ASCII) | application-dependent data (multiple of 32 bits)
 pub open spec fn app_ok(s: Seq<u8>) -> bool {
     framed(s, 204, 12)
+}
+
+pub open spec fn app_wellformed(s: Seq<u8>) -> bool {
+    wellformed(s, 204, 12, 0)
 }
 
 pub open spec fn app_data(s: Seq<u8>) -> Seq<u8> {
@@ -116,9 +133,17 @@ pub open spec fn sr_ok(s: Seq<u8>) -> bool {
     framed(s, 200, 28) && 28 + 24 * hdr_count(s) <= s.len()
 }
 
+pub open spec fn sr_wellformed(s: Seq<u8>) -> bool {
+    wellformed(s, 200, 28, 24 * hdr_count(s))
+}
+
 /// RR: header(RC, PT=201) | SSRC | RC report blocks
 pub open spec fn rr_ok(s: Seq<u8>) -> bool {
     framed(s, 201, 8) && 8 + 24 * hdr_count(s) <= s.len()
+}
+
+pub open spec fn rr_wellformed(s: Seq<u8>) -> bool {
+    wellformed(s, 201, 8, 24 * hdr_count(s))
 }
 
 /// the i-th report block of a packet whose blocks start at `base`
@@ -167,6 +192,13 @@ pub open spec fn bye_ok(s: Seq<u8>) -> bool {
 /// what the parser additionally guarantees: a reason length octet, when bytes remain, stays inside the packet
 pub open spec fn bye_wf(s: Seq<u8>) -> bool {
     bye_ok(s) && (s.len() > 4 + 4 * hdr_count(s) ==> 4 + 4 * hdr_count(s) + 1 + s[4 + 4 * hdr_count(s)] <= s.len())
+}
+
+/// RFC-well-formed BYE: the sources, and the length-prefixed reason when octets remain, lie in front of the padding trailer
+pub open spec fn bye_wellformed(s: Seq<u8>) -> bool {
+    let off = 4 + 4 * hdr_count(s);
+    &&& wellformed(s, 203, 4, 4 * hdr_count(s))
+    &&& (s.len() - pad_count(s) > off ==> off + 1 + s[off] <= s.len() - pad_count(s))
 }
 
 pub open spec fn bye_ssrc(s: Seq<u8>, i: int) -> int {
@@ -231,6 +263,10 @@ pub open spec fn unknown_ok(s: Seq<u8>) -> bool {
     s.len() >= 4 && hdr_version(s) == 2 && hdr_bytes(s) == s.len()
 }
 
+pub open spec fn unknown_wellformed(s: Seq<u8>) -> bool {
+    unknown_ok(s) && (hdr_pad(s) ==> 1 <= s[s.len() - 1] as int <= s.len() - 4) && pad_rfc(s)
+}
+
 pub open spec fn unknown_spec_parse(s: Seq<u8>) -> Result<(), crate::RtcpParseError> {
     if s.len() < 4 {
         Err(crate::RtcpParseError::Truncated { expected: 4, actual: s.len() as usize })
@@ -286,6 +322,10 @@ pub open spec fn tiles_count(s: Seq<u8>, off: int) -> nat
 // header(FMT in the count bits, PT=205 transport / 206 payload) | SSRC of packet sender | SSRC of media source | FCI
 pub open spec fn fb_ok(s: Seq<u8>, pt: int) -> bool {
     framed(s, pt, 12)
+}
+
+pub open spec fn fb_wellformed(s: Seq<u8>, pt: int) -> bool {
+    wellformed(s, pt, 12, 0)
 }
 
 pub open spec fn img_fb(pt: int, padding: int, format: int, sender: int, media: int, fci: Seq<u8>) -> Seq<u8> {
